@@ -48,7 +48,7 @@ fn main() {
             let id: &'static str = Box::leak(args[2].clone().into_boxed_str());
             let cfg = Cfg { id, tier, seed, workers, verif_dir, out_dir, started: Instant::now(), scale };
             // generous wall-clock watchdog around the whole check: its firing is inconclusive, never a verdict
-            let limit = std::env::var("AVM_WATCHDOG_S").ok().and_then(|s| s.parse().ok()).unwrap_or(if tier == Tier::Quick { 900u64 } else { 5400 });
+            let limit = std::env::var("AVM_WATCHDOG_S").ok().and_then(|s| s.parse().ok()).unwrap_or(if tier == Tier::Quick { 1800u64 } else { 14400 });
             std::thread::spawn(move || {
                 std::thread::sleep(std::time::Duration::from_secs(limit));
                 println!("INCONCLUSIVE property={} reason=watchdog fired after {} s (no verdict)", id, limit);
